@@ -5,14 +5,64 @@
 -/
 import Model.Md6
 import Spec.Md6
+import Proofs.Lemmas.Md6F
 namespace Proofs.C17
-open Model Model.Md6
+open Model Model.Md6 Proofs.Lemmas
 
-/-- the 15 words of Q the code reads are the report's -/
+/-! ### the constants the code reads (regenerated from the current source) are the report's -/
+
+/-- the 15 words of Q -/
 theorem Q_eq : Gen.Md6.Q = Spec.Md6.Q.map (·.toNat) := by decide +kernel
 
 /-- … and the report's Q is what it claims to be: the first 960 bits of the fractional part of √6 -/
 theorem Q_is_sqrt6 : Spec.Md6.QisSqrt6 := by
   unfold Spec.Md6.QisSqrt6; decide +kernel
+
+/-- both shift tables -/
+theorem shift_tables_eq : Gen.Md6.rin = Spec.Md6.rshift ∧ Gen.Md6.lin = Spec.Md6.lshift := by decide
+
+/-- tap positions, as a tuple and as the five names the loop uses -/
+theorem taps_eq : Gen.Md6.taps = [Spec.Md6.t0, Spec.Md6.t1, Spec.Md6.t2, Spec.Md6.t3, Spec.Md6.t4]
+    ∧ Gen.Md6.t0 = Spec.Md6.t0 ∧ Gen.Md6.t1 = Spec.Md6.t1 ∧ Gen.Md6.t2 = Spec.Md6.t2
+    ∧ Gen.Md6.t3 = Spec.Md6.t3 ∧ Gen.Md6.t4 = Spec.Md6.t4 := by decide
+
+/-- S₀, the mask S* and the rotation of the round-constant recurrence; 16 steps per round, 16 output words -/
+theorem S_constants_eq : Gen.Md6.S0 = Spec.Md6.S0.toNat ∧ Gen.Md6.Smask = Spec.Md6.Sstar.toNat ∧ Gen.Md6.Srot = 1
+    ∧ Gen.Md6.stepsPerRound = 16 ∧ Gen.Md6.jWrap = 16 ∧ Gen.Md6.cWords = Spec.Md6.c := by decide
+
+/-- the constructor's default round count, probed for EVERY d ≤ 512 without and with a key, is the report's
+    r = 40 + ⌊d/4⌋ (at least 80 with a key) -/
+theorem default_rounds_eq : ∀ d ≤ 512,
+    Gen.Md6.defaultRounds.getD d 0 = Spec.Md6.defaultRounds d 0 ∧
+    Gen.Md6.defaultRoundsKeyed.getD d 0 = Spec.Md6.defaultRounds d 1 := by
+  decide +kernel
+
+/-- … and the model's rule is the report's for every d and key -/
+theorem default_rounds_refines (d : Nat) (key : List Nat) (L : Nat) :
+    (Md6.new d key L).rounds = Spec.Md6.defaultRounds d key.length := by
+  simp only [Md6.new, Md6.defaultRounds, Spec.Md6.defaultRounds, Option.getD_none]
+  by_cases h : key.length = 0 <;> simp [h]
+
+/-! ### the compression function -/
+
+/-- MD6.f equals the report's compression function f_r for EVERY round count r ≥ 1 and every 89-word input
+    (r = 0 is outside the report and is an artefact in the code: `Poly(0,64,dim=0)` has one coefficient) -/
+theorem f_refines (r : Nat) (hr : 1 ≤ r) (N : List Nat) (hN : N.length = 89) :
+    Md6.f r N = (Spec.Md6.compress r (N.map (BitVec.ofNat 64))).map (·.toNat) :=
+  Md6F.f_refines' r hr N hN
+
+/-- the loop's running round constant is the report's S'_{⌊s/16⌋} -/
+theorem round_constant_is_Sr (N : List Spec.Md6.Word) (s : Nat) :
+    ((List.range s).foldl Spec.Md6.step (N.toArray, Spec.Md6.S0)).2 = Spec.Md6.Sr (s / 16) := by
+  induction s with
+  | zero => rfl
+  | succ s ih =>
+    rw [List.range_succ, List.foldl_append]
+    simp only [List.foldl_cons, List.foldl_nil, Spec.Md6.step, ih]
+    by_cases h : s % 16 = 15
+    · rw [if_pos h, show (s + 1) / 16 = s / 16 + 1 by omega]; rfl
+    · rw [if_neg h, show (s + 1) / 16 = s / 16 by omega]
+
+example : Md6.f 1 (List.replicate 89 0) ≠ List.replicate 16 0 := by decide +kernel
 
 end Proofs.C17
